@@ -105,6 +105,25 @@ func VerifC06Affinity(strategy int, n int, l int, mode int) {
 	verifrt.Assert(b1 == b2, "same client attribution -> same backend, whatever the port, path or other headers")
 }
 
+// VerifC06AffinityConcurrent: requests of two different clients handled at the
+// same time each reach the backend their client is pinned to (what the same
+// requests get one after the other), whatever the interleaving.
+func VerifC06AffinityConcurrent(strategy int, n int) {
+	lb := verifBareLB(strategy)
+	for i := 0; i < n; i++ {
+		lb.strategy.AddBackend(verifBackend(i))
+	}
+	r1 := verifRequest("198.51.100.7:999")
+	r2 := verifRequest("198.51.100.8:999")
+	r2.Header.Set("X-Forwarded-For", "203.0.113.77, 10.0.0.1")
+	want1, want2 := lb.NextBackend(r1), lb.NextBackend(r2)
+	var got1, got2 *Backend
+	verifrt.Go(func() { got1 = lb.NextBackend(r1) })
+	verifrt.Go(func() { got2 = lb.NextBackend(r2) })
+	verifrt.WaitAll()
+	verifrt.Assert(got1 == want1 && got2 == want2, "concurrent requests of different clients each reach their own client's backend")
+}
+
 // VerifC06Append: under ip_hash_consistent, appending a backend moves a
 // client only to the new backend (all backends eligible).
 func VerifC06Append(n int, l int) {
